@@ -205,6 +205,12 @@ def run_check(modname, tier, seed, replay=None):
     n_budget = len([u for u in total.unreproduced if u["label"] == "returns"])
     if n_budget:
         total.inconclusive_paths += n_budget
+    # any other obligation the solver refuted on a path but whose witness passes natively: not proved, not a violation -> inconclusive
+    n_other = len([u for u in total.unreproduced if u["label"] not in ("returns", "no_exception")])
+    if n_other:
+        total.inconclusive_paths += n_other
+        print("note: %d obligation(s) refuted symbolically but not reproduced natively (counted as inconclusive; first: %s)" % (
+            n_other, [u["label"] for u in total.unreproduced if u["label"] not in ("returns", "no_exception")][0]))
     unrep_exc = [u for u in total.unreproduced if u["label"] == "no_exception"]
     if unrep_exc:
         harness_problems.append("exception/timeout on a symbolic path that does not reproduce natively on %d path(s) (first: %s)" % (
